@@ -66,6 +66,7 @@ type hbState struct {
 	cells   map[unsafe.Pointer]*shadow
 	seen    map[[2]int]bool
 	Checked int
+	extern  vclock // released into by context cancel calls, acquired by every channel receive and adopted goroutine
 }
 
 func newHB() *hbState {
